@@ -389,7 +389,20 @@ func (c *Ctx) RunShards() {
 			if i := strings.Index(first, "\n"); i > 0 {
 				first = first[:i]
 			}
-			c.Violation("shard-died", fmt.Sprintf("worker process %d/%d died while driving the library (%v): %s", r.k, w, r.err, first), map[string]any{"output": tail})
+			rp := map[string]any{"output": tail}
+			if cur, err := os.ReadFile(currentFile(c.ID, r.k)); err == nil {
+				var m map[string]any
+				if json.Unmarshal(cur, &m) == nil {
+					for k, v := range m {
+						rp[k] = v
+					}
+				}
+			}
+			key := "shard-died"
+			if ee, ok := r.err.(*exec.ExitError); ok && ee.ExitCode() == 4 {
+				key = "hang"
+			}
+			c.Violation(key, fmt.Sprintf("worker process %d/%d died while driving the library (%v) in case %v: %s", r.k, w, r.err, rp["case"], first), rp)
 			continue
 		}
 		var d shardDump
@@ -421,3 +434,59 @@ func (c *Ctx) RunShards() {
 		_ = os.Remove(shardFile(c.ID, r.k))
 	}
 }
+
+// ---- crash / hang bookkeeping inside a shard ----
+
+func currentFile(id string, k int) string {
+	return filepath.Join(VerifRoot, "out", "shards", fmt.Sprintf("%s-%d.current.json", id, k))
+}
+
+var watchdogMu sync.Mutex
+var watchdogDeadline time.Time
+var watchdogOnce sync.Once
+
+// Begin records the case about to be executed on disk BEFORE the library is called (a Go fatal error cannot be
+// recovered: the parent reads this file to name the killer case) and arms the per-case watchdog.
+func (c *Ctx) Begin(caseID string, inputs map[string]string) {
+	if c.shard < 0 {
+		return
+	}
+	m := map[string]any{"case": caseID}
+	for k, v := range inputs {
+		m[k] = v
+	}
+	b, _ := json.Marshal(m)
+	_ = os.MkdirAll(filepath.Join(VerifRoot, "out", "shards"), 0o755)
+	_ = os.WriteFile(currentFile(c.ID, c.shard), b, 0o644)
+	watchdogMu.Lock()
+	watchdogDeadline = time.Now().Add(CaseWatchdog)
+	watchdogMu.Unlock()
+	watchdogOnce.Do(func() {
+		go func() {
+			for {
+				time.Sleep(time.Second)
+				watchdogMu.Lock()
+				expired := !watchdogDeadline.IsZero() && time.Now().After(watchdogDeadline)
+				watchdogMu.Unlock()
+				if expired {
+					fmt.Fprintf(os.Stderr, "WATCHDOG: case did not return within %s\n", CaseWatchdog)
+					os.Exit(4)
+				}
+			}
+		}()
+	})
+}
+
+// End disarms the watchdog.
+func (c *Ctx) End() {
+	watchdogMu.Lock()
+	watchdogDeadline = time.Time{}
+	watchdogMu.Unlock()
+}
+
+// CaseWatchdog is a generous wall-clock guard (cases take milliseconds); its firing is reported separately
+// from oracle verdicts (key "hang").
+var CaseWatchdog = 180 * time.Second
+
+// First tells whether this process is the first shard (for counting things every shard enumerates identically).
+func (c *Ctx) First() bool { return c.shard <= 0 }
